@@ -8,6 +8,7 @@ NAMES = ['calc_arias_intensity', 'calc_cav', 'calc_isv', 'calc_integral_of_abs_v
 RULE = ('cases = (measure, dt, record) through eqsig.im.* on an AccSignal; exact domain (integer/dyadic records, dyadic dt, tolerance 0; '
         '1e-13 for Arias because of the single multiplication by pi/(2*9.81)); tolerance domain 1e-10 of the final value; '
         'cav_dp compared only when numpy arange gives exactly pps points per window (else counted fragile) and the 0.025 g gate is not within 1e-9; '
+        'cav_dp also on records that end part-way through a second with the last whole window below the gate and a strong sample only in the trailing part-second (which belongs to no window); '
         'the checker also evaluates length = npts and non-decreasing on the implementation output itself; '
         'non-trivial = record has >= 3 samples and is not identically zero')
 TRUSTED = [
@@ -208,6 +209,41 @@ def run(rep, rng, tier):
         cases.append(c)
         nb += 1
     rep.extra['gate_boundary_cases'] = nb
+    # records whose duration is not a whole number of seconds: the samples after the last whole one-second window belong to no
+    # window.  Last whole window weak (peak below 0.025 g, non-zero |a| integral), strong sample(s) only in the trailing
+    # part-second; earlier windows weak or strong.
+    n_tail = 0
+    for k in range(10 if tier == 'quick' else 100):
+        dt = rng.choice([0.25, 0.125, 0.0625, 0.05, 0.02, 0.01])
+        pps = int(1 / dt)
+        secs = rng.randint(1, 4)
+        tail = rng.randint(1, pps - 1)
+        n = secs * pps + 1 + tail
+        a, _ = gens.int_record(rng, n, amp=1, style=rng.choice(['uniform', 'plateau', 'walk']))      # |a| <= 1/8 m/s2 = 0.0127 g
+        for w in range(secs - 1):                                                                    # earlier windows: some strong
+            if rng.random() < 0.4:
+                a[w * pps + rng.randint(1, pps - 1)] = rng.choice([-4, 3, 8])
+        lastw = slice((secs - 1) * pps, secs * pps + 1)
+        if secs > 1 and abs(a[lastw.start]) > 1:
+            a[lastw.start] = 1.0
+        if not np.any(a[lastw]):
+            a[lastw.start + rng.randint(0, pps)] = rng.choice([-1, 1])
+        for _ in range(rng.randint(1, 3)):
+            a[secs * pps + rng.randint(1, tail)] = rng.choice([-1, 1]) * rng.choice([2, 3, 8, 80])  # >= 0.0255 g, after the last window
+        a = a / 8.0
+        fr, pps_, nwin = cavdp_fragile(a, dt)
+        if fr or nwin != secs:
+            fragile += 1
+            continue
+        r = guarded(impl, 6, a, dt)
+        if isinstance(r, ImplError):
+            rep.violation(NAMES[6], {'function': NAMES[6], 'args': {'dt': dt, 'values': list(a)}, 'impl_error': str(r)})
+            continue
+        c = mk(6, a, dt, r, 1e-10, pps_, nwin)
+        c.site = NAMES[6] + '[strong sample only in the trailing part-second]'
+        cases.append(c)
+        n_tail += 1
+    rep.extra['strong_tail_cases'] = n_tail
     rep.extra['fragile_skipped'] = fragile
     rep.correspond('model.K_C09', 'check_case', cases, describe='model_out %s')
 
